@@ -104,6 +104,9 @@ package minersc
 // both candidate lists are sorted by stake, highest first, ties by ascending id: the two comparator
 // closures handed to sort.SliceStable are proved to compute exactly this order
 //@   comparator[previous-members-by-stake] pmbNodes by $a.TotalStaked > $b.TotalStaked || ($a.TotalStaked == $b.TotalStaked && $a.ID < $b.ID)
+// the number of previous members that are kept ahead of everybody else is the required share of the
+// places, rounded UP (x_percent of min(limit, candidates)), or all previous members if there are fewer
+//@   at-call SliceStable assert[required-previous-members-rounded-up] x == min(len(pmbNodes), trunc(f64_ceil(xPercent * float64(maxNodes))))
 //@   comparator[candidates-by-stake] newNodes by $a.TotalStaked > $b.TotalStaked || ($a.TotalStaked == $b.TotalStaked && $a.ID < $b.ID)
 // (selectedNodes at that point: the x kept previous members, then the candidates taken without a draw)
 //@   at-call Perm assert[tied-candidates-only-through-the-draw] forall k in x..len(selectedNodes) :: selectedNodes[k].TotalStaked != stake
